@@ -89,6 +89,9 @@ type c17Case struct {
 	InclDep  string     `json:"include_deprecated"`
 	// Then: further includeDeprecated settings asked one after the other on the SAME root
 	Then []string `json:"then,omitempty"`
+	// Loads: the schema arrives as these successive documents (an arrangement of the same
+	// definitions), with an introspection request after every load
+	Loads []string `json:"loads,omitempty"`
 }
 
 type resolverRoot struct{}
@@ -207,7 +210,23 @@ func checkC17(c *c17Case) (ds []hx.Discrepancy, info map[string]bool) {
 	info = map[string]bool{}
 	sdl := c.Schema.SDL(hx.SDLOpts{})
 	root := newRootOfKind(c.RootKind)
-	if err := root.ParseString(sdl); err != nil {
+	if len(c.Loads) > 0 {
+		// the same definitions arriving in successive loads, the root being asked about itself
+		// after every one of them (the answers to those intermediate requests are not looked at)
+		info["introspected-between-loads"] = true
+		for i, part := range c.Loads {
+			if err := root.ParseString(part); err != nil {
+				return []hx.Discrepancy{{Kind: "setup", Detail: fmt.Sprintf("load %d of %d rejected: %v\n%s", i+1, len(c.Loads), err, strings.Join(c.Loads, "\n---next load---\n"))}}, info
+			}
+			if i < len(c.Loads)-1 {
+				q := strings.ReplaceAll(c17Query, "INC", "true")
+				if i%2 == 1 {
+					q = strings.ReplaceAll(c17Query, "(includeDeprecated: INC)", "")
+				}
+				_ = root.ResolveString(q, "", nil)
+			}
+		}
+	} else if err := root.ParseString(sdl); err != nil {
 		return []hx.Discrepancy{{Kind: "setup", Detail: fmt.Sprintf("schema rejected: %v\n%s", err, sdl)}}, info
 	}
 	for i, inc := range append([]string{c.InclDep}, c.Then...) {
@@ -638,8 +657,20 @@ func TestC17(t *testing.T) {
 		s := GenFull(rt, Opts{Descs: true, Directives: true, Deprecated: true})
 		inc := rapid.SampledFrom([]string{"true", "false", "absent", "var-true", "var-false"}).Draw(rt, "includeDeprecated")
 		then := rapid.SliceOfN(rapid.SampledFrom([]string{"true", "false", "absent", "var-true", "var-false"}), 0, 2).Draw(rt, "then")
+		var loads []string
+		if rapid.IntRange(0, 2).Draw(rt, "successiveLoads") == 0 {
+			arr := Arrange(rt, s, hx.SDLOpts{}, "c17", true, 3)
+			if parts := arr.Texts(); len(parts) > 1 {
+				loads = parts
+			}
+			if rapid.Bool().Draw(rt, "extendsInALoadOfTheirOwn") {
+				if parts := ExtendsLast(arr); parts != nil {
+					loads = parts
+				}
+			}
+		}
 		for _, rk := range []string{"reflection", "resolver", "any"} {
-			one(rt.Fatalf, &c17Case{Schema: s, RootKind: rk, InclDep: inc, Then: then})
+			one(rt.Fatalf, &c17Case{Schema: s, RootKind: rk, InclDep: inc, Then: then, Loads: loads})
 		}
 	})
 }
